@@ -247,6 +247,11 @@ def judge(g, batches, fsw, lines, init=None):
         ntk = L[pos].split()
         pos += 1
         need_flush = ntk[3] if len(ntk) > 3 else '?'
+        dirty = None
+        for tkx in ntk[4:]:
+            if tkx.startswith('dirty='):
+                dirty = tuple(int(x) for x in tkx[6:].split(','))
+        b['dirty'] = dirty
         snap = L[pos] if pos < len(L) and L[pos].startswith('snap') else None
         if snap:
             pos += 1
